@@ -105,12 +105,64 @@ fn check_frames(frames: &[Vec<u8>], what: String) -> Result<(), (String, String)
     }
     // and a second decode call on the empty buffer yields nothing
     match world::guarded(|| dc.decode(&mut buf)).map_err(|p| ("panic/decode".to_string(), format!("decode of the empty remainder after {} panicked: {}", what, p)))? {
-        Ok(None) => Ok(()),
-        other => Err((
-            "lib-decode-extra".into(),
-            format!("{}: decoding the empty remainder gave {:?}", what, other.map(|o| o.is_some())),
-        )),
+        Ok(None) => {}
+        other => {
+            return Err((
+                "lib-decode-extra".into(),
+                format!("{}: decoding the empty remainder gave {:?}", what, other.map(|o| o.is_some())),
+            ))
+        }
     }
+    // the same bytes handed to the decoder in two pieces, the cut at every offset of every frame's header (1..=9 bytes
+    // into it) and one byte before the end: still exactly that message (C02 covers segmentation in general; here it is
+    // the frame shapes of THIS property - sizes 0, 255, 256, 65535, 65536, multi-megabyte - whose headers get cut)
+    let mut starts: Vec<usize> = Vec::new();
+    let mut off = 0usize;
+    for f in &frames {
+        starts.push(off);
+        off += if f.len() > 255 { 9 } else { 2 } + f.len();
+    }
+    if out.len() > 300_000 && starts.len() > 2 {
+        starts = vec![starts[0], *starts.last().unwrap()];
+    }
+    let mut cuts: Vec<usize> = starts.iter().flat_map(|s| (1..=9).map(move |k| s + k)).chain([out.len() - 1]).filter(|c| *c > 0 && *c < out.len()).collect();
+    cuts.sort();
+    cuts.dedup();
+    for cut in cuts {
+        let mut dc = codec_after_greeting()?;
+        let mut buf = BytesMut::from(&out[..cut]);
+        let mut got: Vec<Vec<Vec<u8>>> = Vec::new();
+        let mut bad: Option<String> = None;
+        for piece in 0..2 {
+            if piece == 1 {
+                buf.extend_from_slice(&out[cut..]);
+            }
+            loop {
+                match world::guarded(|| dc.decode(&mut buf)).map_err(|p| ("panic/decode".to_string(), format!("decode of {} handed over in two pieces (cut at {}) panicked: {}", what, cut, p)))? {
+                    Ok(Some(Item::Message(f))) => got.push(f),
+                    Ok(Some(_)) => {
+                        bad = Some("a non-message item".into());
+                        break;
+                    }
+                    Ok(None) => break,
+                    Err(e) => {
+                        bad = Some(format!("error {}", e));
+                        break;
+                    }
+                }
+            }
+            if bad.is_some() {
+                break;
+            }
+        }
+        if bad.is_some() || got != vec![frames.clone()] || !buf.is_empty() {
+            return Err((
+                "lib-decode-mismatch/two-pieces".into(),
+                format!("{}: handed to the library decoder in two pieces (cut at offset {} of {}), its own encoding gave {} message(s){} with {} bytes left over", what, cut, out.len(), got.len(), bad.map(|b| format!(" and {}", b)).unwrap_or_default(), buf.len()),
+            ));
+        }
+    }
+    Ok(())
 }
 
 fn classify_encode_diff(frames: &[Vec<u8>], out: &[u8]) -> String {
